@@ -103,6 +103,14 @@ func sends() int { return 0 }
 // metric(m): ghost value of a prometheus counter / gauge.
 func metric(m any) int { return 0 }
 
+// metricvec(v, label): the child of metric vector v for the label; metricsOnly(m...): no metric other than the listed ones changed.
+func metricvec(v any, label string) int { return 0 }
+func metricsOnly(m ...any) bool          { return true }
+
+// hasKey(m, k): map m has an entry for k. cur(x): the current value of a reassigned parameter / local.
+func hasKey[K comparable, V any](m map[K]V, k K) bool { _, ok := m[k]; return ok }
+func cur[T any](x T) T                                 { return x }
+
 // bufRoom(b, front, back): the buffer can take front more bytes in front and back more behind without reallocating.
 func bufRoom(b any, front, back int) bool { return b != nil }
 
